@@ -131,7 +131,7 @@ func specialLayers(tier string) []Layer {
 	layers = append(layers, Layer{
 		Name:   "P1-classes",
 		Units:  len(ops) * 4,
-		Bounds: "operations {Add,Sub,Mul,Quo,FMA,Sqrt,Set,Neg,Abs} × operand classes {-Inf,-finite,-0,+0,+finite,+Inf}^arity × 4 finite magnitudes (1 digit, 1 word, 3 words, 2 digits) × receiver precision {0,3,40} × 6 modes × receiver pre-states {fresh, held-longer, -Inf}",
+		Bounds: "operations {Add,Sub,Mul,Quo,FMA,Sqrt,Set,Neg,Abs} × operand classes {-Inf,-finite,-0,+0,+finite,+Inf}^arity × 4 finite magnitudes (1 digit, 1 word, 3 words, 2 digits) × receiver precision {0,3,40} × 6 modes × receiver pre-states {fresh, held-longer, -Inf, negative-inexact}",
 		Run: func(c *Ctx, u int) {
 			op, mag := ops[u/4], u%4
 			spec := opSpecs[op]
@@ -144,7 +144,7 @@ func specialLayers(tier string) []Layer {
 						for i := range vals {
 							vals[i] = reps[idx[i]]
 						}
-						for _, pre := range []int{preFresh, preLonger, preNegInf} {
+						for _, pre := range []int{preFresh, preLonger, preNegInf, preInexact} {
 							specialCase(c, op, vals, zp, m, pre, "")
 						}
 						i := 0
